@@ -31,7 +31,8 @@ def replay_obj(failat, sources, kind, detail, extra=None, entry="EvalString"):
          "load_run": entry == "LoadString+Run", "entry_point": entry,
          "detail": detail,
          "replay": "bin/check C05 --replay <this file>  (evaluates the texts in a fresh interpreter for every failure kind; "
-                   "failk raises on its failat-th call; prints every kind's outcomes and the anomalies)"}
+                   "failk raises on its failat-th call; prints every kind's outcomes and the anomalies; when the file has "
+                   "'expected' - the outcomes of the reference semantics per text - the script-error run is compared with them)"}
     if extra:
         o.update(extra)
     return o
@@ -124,6 +125,11 @@ def main(argv):
                             prop.append((len(a[4]), replay_obj(failat, sources, "property failure: a text that is rejected as a whole took effect",
                                                                ["a text that was rejected with an error left a marker defined: %s evaluates to %s (model %s)" % (unesc(src), x, y)],
                                                                {"case": cid}, entry)))
+                        elif "d" in roles:
+                            prop.append((len(a[4]), replay_obj(failat, sources, "property failure: later evaluation differs from the desugared reference semantics",
+                                                               ["text %d %s evaluates to %s; the reference semantics (lazy argument = memo cell + thunk, a failed force leaves it unforced; "
+                                                                "macro = function, a failed redefinition leaves the old one) gives %s" % (i, unesc(src), x, y)],
+                                                               {"case": cid, "model_input": inp[:3000], "expected": mo}, entry)))
                         elif role == "i" and x.startswith("V:"):
                             prop.append((len(a[4]), replay_obj(failat, sources, "property failure: error swallowed into a successful result",
                                                                ["text %d %s must be rejected as a whole (model %s) but evaluated to %s" % (i, unesc(src), y, x)],
